@@ -165,6 +165,7 @@ class Ctx:
             f"--   {s} sha256:{self.sources.get(s, '?')}\n" for s in srcs
         )
         p = LEAN / "EzdxfVerif" / "Gen" / f"{name}.lean"
+        p.parent.mkdir(parents=True, exist_ok=True)
         new = head + text
         with lean_lock():
             if not p.exists() or p.read_text() != new:
